@@ -640,10 +640,11 @@ static void record(const std::string &out, long nops, unsigned long long seed, c
 //   * tol, the slack in units of q the specification grants on the ends of the cumulative interval:
 //     2 * size + 2.  2 * size covers the fixed-point representation of the prefix sums and of the total.
 //     The rest covers floating-point rounding inside the structure, which is rigorously below 1 unit:
-//     every value in the tree is bounded by M = 2^26 q, each += / -= / * commits at most 2^-53 M, an
-//     inner node receives at most 2 roundings per edit, the descent adds at most 8 more, so after at
-//     most K = 512 edits of one object the comparison r > left is off by less than
-//     8 * (2 K + 1) * 2^-53 M  <  2^-13 q.
+//     every value in the tree is bounded by M = 2^26 q and each + / - / * commits at most 2^-53 M.
+//     With inner nodes recomputed from their children (the present code) a node is off by at most
+//     (its height) roundings; with the earlier += / -= of weight differences it was at most 2 per
+//     edit, K = 512 edits per object.  The descent adds at most 8 more.  Either way the comparison
+//     r > left is off by less than  8 * (2 K + 1) * 2^-53 M  <  2^-13 q.
 // The zero-weight clause and "the result is a surviving element" need no tolerance at all.
 struct Regime
 {
